@@ -484,7 +484,11 @@ func c15PerTemplate(cs *c15Case, r *Rec, removed, survived int) error {
 	if err != nil {
 		return skipf("hand-stripped document does not compile: %v", err)
 	}
-	marked.Options.TrimBlocks, marked.Options.LStripBlocks = cs.Trim, cs.LStrip
+	if cs.Variant%2 == 0 {
+		marked.Options.TrimBlocks, marked.Options.LStripBlocks = cs.Trim, cs.LStrip
+	} else {
+		marked.Options.Update(&pongo2.Options{TrimBlocks: cs.Trim, LStripBlocks: cs.LStrip})
+	}
 	// the reference first (and again afterwards): it must not be touched by the other template's options
 	want, err2 := plain.Execute(c15Context(cs.Variant))
 	if err2 != nil {
@@ -503,6 +507,19 @@ func c15PerTemplate(cs *c15Case, r *Rec, removed, survived int) error {
 	}
 	if set.Options.TrimBlocks || set.Options.LStripBlocks {
 		return fmt.Errorf("setting a template's options changed the set's options")
+	}
+	// a set with both options on, a template of it told otherwise through Options.Update before
+	// its first execution: the template's own options count, also for switching something OFF
+	{
+		setOn := pongo2.NewSet("c15on", newMemLoader(files))
+		setOn.Options.TrimBlocks, setOn.Options.LStripBlocks = true, true
+		if t2, e := setOn.FromFile("/m/root.tpl"); e == nil {
+			t2.Options.Update(&pongo2.Options{TrimBlocks: cs.Trim, LStripBlocks: cs.LStrip})
+			got2, e2 := t2.Execute(c15Context(cs.Variant))
+			if e2 != nil || got2 != want {
+				return fmt.Errorf("set with both options on, template updated to TrimBlocks=%v LStripBlocks=%v before its first execution: renders %q (err %v), hand-stripped %q\n files=%q", cs.Trim, cs.LStrip, got2, e2, want, files)
+			}
+		}
 	}
 	// "You can change the options before calling the Execute method" (doc of TemplateSet.Options):
 	// also when the template has been executed before with the options off
